@@ -118,11 +118,16 @@ ModelTid == <<48, 49, 50, 51, 52, 97, 98, 99, 100, 102>>
 JsonMatch(c, r) == /\ c.jk = "object" /\ c.dec /\ c.jver.cls = "ab"
                    /\ r.vmaj = c.jver.maj /\ r.vmin = c.jver.min
                    /\ r.requser = c.juser /\ r.reqhost = c.jhost
-LegMatch(c, r)  == LET v == LegView(c.atoms) IN
-                   /\ v.hasreq /\ v.nat >= 1
-                   /\ r.requser \o "40" \o r.reqhost = v.reqv       \* copied verbatim from the requester field
-                   /\ \/ v.ver.cls = "ab" /\ r.vmaj = v.ver.maj /\ r.vmin = v.ver.min
-                      \/ v.ver.cls = "missing" /\ r.vmaj = 0 /\ r.vmin = 0
+\* a legacy reading: some requester token whose value splits at an '@' into exactly the two copies, and a declared
+\* client version (0.0 when the token is absent or empty).  Which occurrence of a repeated key counts is C15's
+\* business (last one); C14 accepts any.
+LegMatch(c, r)  == LET toks == Tokens(c.atoms)
+                       RI   == {i \in 1..Len(toks) : toks[i].k = K_req}
+                       VI   == {i \in 1..Len(toks) : toks[i].k = K_ver}
+                   IN
+                   /\ \E i \in RI : NumAt(toks[i].v) # {} /\ r.requser \o "40" \o r.reqhost = Cat(toks[i].v)
+                   /\ \/ \E i \in VI : LET v == VerOf(toks[i].v) IN v.cls = "ab" /\ r.vmaj = v.maj /\ r.vmin = v.min
+                      \/ r.vmaj = 0 /\ r.vmin = 0 /\ (VI = {} \/ \E i \in VI : toks[i].v = <<>>)
 PolicyFromCommand(av, r) ==
   LET n == Len(av.toks) IN
   /\ n >= 2
